@@ -208,8 +208,11 @@ func (d *Descriptor) readAsSlice(out Outputter, data []byte) (n int, err error) 
 
 	case FieldTypeStruct, FieldTypeSlice, FieldTypeString:
 		count, n := plenccore.ReadVarUint(data)
-		if n < 0 {
+		if n < 0 || (n == 0 && len(data) != 0) {
 			return 0, fmt.Errorf("corrupt data looking for WTSlice count")
+		}
+		if count > uint64(len(data)-n) {
+			return 0, fmt.Errorf("WTSlice count %d exceeds remaining data %d", count, len(data)-n)
 		}
 		offset := n
 		for i := 0; i < int(count); i++ {
@@ -225,8 +228,7 @@ func (d *Descriptor) readAsSlice(out Outputter, data []byte) (n int, err error) 
 			if s == 0 {
 				continue
 			}
-			end := offset + int(s)
-			if end > len(data) {
+			if s > uint64(len(data)-offset) {
 				return 0, fmt.Errorf("corrupt data reading slice entry %d", i)
 			}
 
@@ -257,6 +259,9 @@ func (d *Descriptor) readAsMapEntry(out Outputter, data []byte) (n int, err erro
 	for offset < l {
 		verifYield("desc.struct")
 		wt, index, n := plenccore.ReadTag(data[offset:])
+		if n <= 0 {
+			return 0, fmt.Errorf("invalid tag at offset %d of %s", offset, d.Name)
+		}
 		offset += n
 
 		var elt *Descriptor
@@ -287,10 +292,10 @@ func (d *Descriptor) readAsMapEntry(out Outputter, data []byte) (n int, err erro
 				return 0, fmt.Errorf("varuint overflow reading field %d of %s", index, d.Name)
 			}
 			offset += n
-			fl = int(v) + offset
-			if fl > l {
-				return 0, fmt.Errorf("length %d of field %d of %s exceeds data length", fl, index, d.Name)
+			if v > uint64(l-offset) {
+				return 0, fmt.Errorf("length %d of field %d of %s exceeds data length", v, index, d.Name)
 			}
+			fl = int(v) + offset
 		}
 
 		n, err := elt.read(out, data[offset:fl])
@@ -310,6 +315,9 @@ func (d *Descriptor) readAsStruct(out Outputter, data []byte) (n int, err error)
 	for offset < l {
 		verifYield("desc.struct")
 		wt, index, n := plenccore.ReadTag(data[offset:])
+		if n <= 0 {
+			return 0, fmt.Errorf("invalid tag at offset %d of %s", offset, d.Name)
+		}
 		offset += n
 
 		var elt *Descriptor
@@ -340,10 +348,10 @@ func (d *Descriptor) readAsStruct(out Outputter, data []byte) (n int, err error)
 				return 0, fmt.Errorf("varuint overflow reading field %d of %s", index, d.Name)
 			}
 			offset += n
-			fl = int(v) + offset
-			if fl > l {
-				return 0, fmt.Errorf("length %d of field %d of %s exceeds data length", fl, index, d.Name)
+			if v > uint64(l-offset) {
+				return 0, fmt.Errorf("length %d of field %d of %s exceeds data length", v, index, d.Name)
 			}
+			fl = int(v) + offset
 		}
 
 		out.NameField(elt.Name)
@@ -362,8 +370,11 @@ func (d *Descriptor) readAsStruct(out Outputter, data []byte) (n int, err error)
 // case the name is omitted from each entry
 func (d *Descriptor) readAsJSON(out Outputter, data []byte) (n int, err error) {
 	count, n := plenccore.ReadVarUint(data)
-	if n < 0 {
+	if n < 0 || (n == 0 && len(data) != 0) {
 		return 0, fmt.Errorf("corrupt data looking for WTSlice count")
+	}
+	if count > uint64(len(data)-n) {
+		return 0, fmt.Errorf("WTSlice count %d exceeds remaining data %d", count, len(data)-n)
 	}
 	offset := n
 	for i := 0; i < int(count); i++ {
@@ -376,6 +387,9 @@ func (d *Descriptor) readAsJSON(out Outputter, data []byte) (n int, err error) {
 		offset += n
 		if s == 0 {
 			continue
+		}
+		if s > uint64(len(data)-offset) {
+			return 0, fmt.Errorf("length %d of entry %d exceeds remaining data %d", s, i, len(data)-offset)
 		}
 
 		n, err := d.readJSONObjectKV(out, data[offset:offset+int(s)])
@@ -397,15 +411,21 @@ func (d *Descriptor) readJSONObjectKV(out Outputter, data []byte) (n int, err er
 	for offset < len(data) {
 		verifYield("desc.jsonkv")
 		wt, index, n := plenccore.ReadTag(data[offset:])
+		if n <= 0 {
+			return 0, fmt.Errorf("invalid tag in JSON entry")
+		}
 		offset += n
 		switch index {
 		case 1:
 			// When using this for reading arrays we simply don't see this index
 			l, n := plenccore.ReadVarUint(data[offset:])
-			if n < 0 {
+			if n <= 0 {
 				return 0, fmt.Errorf("bad length on string field")
 			}
 			offset += n
+			if l > uint64(len(data)-offset) {
+				return 0, fmt.Errorf("length %d of string field exceeds remaining data %d", l, len(data)-offset)
+			}
 			var key string
 
 			n, err := StringCodec{}.Read(data[offset:offset+int(l)], unsafe.Pointer(&key), wt)
@@ -416,7 +436,7 @@ func (d *Descriptor) readJSONObjectKV(out Outputter, data []byte) (n int, err er
 			offset += n
 		case 2:
 			v, n := plenccore.ReadVarUint(data[offset:])
-			if n < 0 {
+			if n <= 0 {
 				return 0, fmt.Errorf("invalid map type field")
 			}
 			jType = jsonType(v)
@@ -425,10 +445,13 @@ func (d *Descriptor) readJSONObjectKV(out Outputter, data []byte) (n int, err er
 			switch jType {
 			case jsonTypeString:
 				l, n := plenccore.ReadVarUint(data[offset:])
-				if n < 0 {
+				if n <= 0 {
 					return 0, fmt.Errorf("bad length on string field")
 				}
 				offset += n
+				if l > uint64(len(data)-offset) {
+					return 0, fmt.Errorf("length %d of string field exceeds remaining data %d", l, len(data)-offset)
+				}
 				var v string
 				n, err := StringCodec{}.Read(data[offset:offset+int(l)], unsafe.Pointer(&v), wt)
 				if err != nil {
@@ -482,10 +505,13 @@ func (d *Descriptor) readJSONObjectKV(out Outputter, data []byte) (n int, err er
 
 			case jsonTypeNumber:
 				l, n := plenccore.ReadVarUint(data[offset:])
-				if n < 0 {
+				if n <= 0 {
 					return 0, fmt.Errorf("bad length on JSON number field")
 				}
 				offset += n
+				if l > uint64(len(data)-offset) {
+					return 0, fmt.Errorf("length %d of JSON number field exceeds remaining data %d", l, len(data)-offset)
+				}
 				var v json.Number
 				n, err := StringCodec{}.Read(data[offset:offset+int(l)], unsafe.Pointer(&v), wt)
 				if err != nil {
